@@ -22,8 +22,15 @@ fn run_cfg(cx: &mut CaseCx, case: &Value) {
   let ml = case["ml"].as_u64().unwrap() as usize;
   let rl = case["rl"].as_u64().unwrap() as usize;
   let content = case["content"].as_u64().unwrap();
-  let m = if content == 0 { prbytes(ml as u64 + 1, ml) } else { vec![0u8; ml] };
-  let r = if content == 0 { prbytes(rl as u64 + 77, rl) } else { vec![0xffu8; rl] };
+  // content 0: independent pseudo-random bytes; 1: all-zero message, all-0xff coins; 2: coins EQUAL to the
+  // message (the two inputs alias); 3: coins = the message reversed
+  let m = if content == 1 { vec![0u8; ml] } else { prbytes(ml as u64 + 1, ml) };
+  let r = match content {
+    0 => prbytes(rl as u64 + 77, rl),
+    1 => vec![0xffu8; rl],
+    2 => m.iter().cycle().take(rl).copied().collect(),
+    _ => m.iter().rev().cycle().take(rl).copied().collect(),
+  };
   let k = t as usize + 2;
   let d = |extra: Value| json!({"t": t, "message_len": ml, "coins_len": rl, "content": content, "detail": extra});
   // k INDEPENDENT invocations of the same sharing
@@ -461,6 +468,30 @@ fn run_transcripts(cx: &mut CaseCx, case: &Value) {
       }),
     }
   };
+  // the DEFAULT transcript passed explicitly is the default transcript: its shares have the same deterministic
+  // fields as shares made with `None`, combine with them, and recover
+  {
+    let explicit = Some(Strobe::new(b"adss", SecParam::B128));
+    let mut v: Vec<Share> = vec![];
+    for i in 0..t as usize + 1 {
+      getrandom::verif::set_group(700 + i as u32);
+      let tr = if i % 2 == 0 { explicit.clone() } else { None };
+      if let Ok(s) = share_of(&Commune::new(t, m.clone(), r.clone(), tr)) {
+        v.push(s);
+      }
+    }
+    cx.eval();
+    if t >= 1 && v.len() == t as usize + 1 {
+      let fields: Vec<Option<rm::AdssShare>> = v.iter().map(|s| rm::parse_adss(&s.to_bytes())).collect();
+      let same = fields.iter().all(|f| matches!((f, &fields[0]), (Some(a), Some(b)) if a.c == b.c && a.d == b.d && a.j == b.j));
+      let rec_ok = matches!(rec(&v[..t as usize]), Ok(Ok(c)) if c.get_message() == m) && matches!(rec(&v[1..]), Ok(Ok(c)) if c.get_message() == m);
+      if !same || !rec_ok {
+        cx.viol("C16/explicit-default-transcript-differs", format!("shares made with the default transcript passed explicitly (Some(Strobe::new(b\"adss\"))) {} shares made with None (t={})", if !same { "differ in their deterministic fields from" } else { "do not combine with" }, t), json!({"t": t}));
+        return;
+      }
+      cx.count("explicit_default_transcript_ok", 1);
+    }
+  }
   let n = t as usize + 1;
   let mut pools: Vec<Vec<Share>> = vec![];
   for w in 0..4 {
@@ -531,7 +562,7 @@ pub fn spec() -> PropSpec {
     checks: vec![
       Check {
         name: "sharings",
-        rule: "t in {0,1,2,3,(8),128} x |M|,|R| in {0,1,15,16,17,165,166,167,100000} (quick: diagonal, extremes and empty-vs-nonempty crosses; thorough: full square) x 2 contents; t+2 independent share() calls: all fields but the point byte-equal, points on one polynomial and distinct, EVERY selection sequence recovers M iff >= t distinct (t=0 never), shares made from the recovered sharing equal the original in every deterministic field and every t-subset of old+new recovers M, replayed entropy gives an identical share",
+        rule: "t in {0,1,2,3,(8),128} x |M|,|R| in {0,1,15,16,17,165,166,167,100000} (quick: diagonal, extremes and empty-vs-nonempty crosses; thorough: full square) x 2 contents (+ coins identical to the message, coins = message reversed, on the diagonal); t+2 independent share() calls: all fields but the point byte-equal, points on one polynomial and distinct, EVERY selection sequence recovers M iff >= t distinct (t=0 never), shares made from the recovered sharing equal the original in every deterministic field and every t-subset of old+new recovers M, replayed entropy gives an identical share",
         gen: |tier| {
           let mut v = vec![];
           let ls = lens();
@@ -545,8 +576,12 @@ pub fn spec() -> PropSpec {
                 if t == 128 && (ml > 200 || rl > 200) && !(a == b) {
                   continue;
                 }
-                for content in 0..2u64 {
+                for content in 0..4u64 {
                   if content == 1 && !(a == b || tier.thorough()) {
+                    continue;
+                  }
+                  // coins equal to / derived from the message: equal lengths (the coins ARE the message) and ml > 0
+                  if content >= 2 && !(a == b && ml > 0 && ml <= 200 && t <= 3) {
                     continue;
                   }
                   v.push(json!({"t": t, "ml": ml, "rl": rl, "content": content}));
